@@ -262,6 +262,48 @@ def fit_rules(run, repo, tables):
     return n_inst
 
 
+def candidate_search(run, repo, tables):
+    """T_mid given as a list of candidates: the species is built from the candidate with the smallest fit error -
+    break temperature, low and high coefficients all from the SAME candidate (the errors are uninterpreted positive
+    numbers whose order is an instance parameter)"""
+    qual = NASA + '.Nasa'
+    cp_slots = sorted(tables['nasa']['powers'])
+    n = 0
+    for better in ('Tma', 'Tmb'):
+        def fb(a_, better=better):
+            if a_.startswith('MEAN{'):
+                return 1 if better in a_ else 2
+            return _fallback_rank(a_)
+        I, o, owner, fn = fitted(repo, qual, 'generic',
+                                 lambda I_: {'T_mid': ListV([I_.D.sym('Tma'), I_.D.sym('Tmb')])},
+                                 {'Tma': 3, 'Tmb': 4, 'T_ref': 2}, fallback=fb)
+        D = I.D
+        key = 'two candidate breaks, %s fits better' % ('first' if better == 'Tma' else 'second')
+        n += 1
+        if not isinstance(o, Obj):
+            run.fail('DATAFLOW.T_mid', 'nasa.Nasa.from_data', key, 'from_data does not build a species: %s' % show(o, 120),
+                     owner.module, fn)
+            continue
+        tm = o.attrs.get('T_mid')
+        okv = True
+        why = ''
+        for label, vec, side in (('a_low', o.attrs.get('a_low'), 'hi'), ('a_high', o.attrs.get('a_high'), 'lo')):
+            ks = fit_of(I, vec, cp_slots) if isinstance(vec, ListV) else []
+            if len(ks) != 1:
+                okv, why = False, '%s does not come from one fit' % label
+                continue
+            lo_, hi_ = mask_bounds(getattr(I.fit_calls[ks[0] - 1].x, 'mask', None))
+            bnd = hi_ if side == 'hi' else lo_
+            if bnd is None or not same(bnd[1], D.sym(better)):
+                okv, why = False, '%s was fitted to the data split at %s' % (label, show(bnd[1]) if bnd else '?')
+        run.check(same(tm, D.sym(better)) and okv, 'DATAFLOW.T_mid', 'nasa.Nasa.from_data', key,
+                  'the species is built with T_mid=%s; %s - break temperature and both coefficient sets must come from '
+                  'the candidate with the smallest error (%s)' % (show(tm), why or 'coefficients from that candidate',
+                                                                   better), owner.module, fn,
+                  sample='Nasa.from_data(T_mid=[Tma, Tmb]) with %s better -> T_mid=%s' % (better, better))
+    return n
+
+
 def only_fit_atoms(vec, slots):
     """the heat-capacity slots hold nothing but what the least-squares call returned (or zero)"""
     return all(isinstance(vec.items[i], Rat) and all(a_.startswith('FIT#') for a_ in vec.items[i].atoms())
@@ -558,8 +600,9 @@ def check(run, repo):
     run.assumptions = ['np.polyfit returns coefficients highest power first; curve_fit returns one value per parameter '
                        'of the model function after the first; a masked sub-vector of generic data is generic and '
                        'has more entries than any small constant it is compared with',
-                       'T_mid given as a scalar / array of break temperatures (the search over candidate breaks '
-                       'compares mean squared errors of data and is not followed)']
+                       'T_mid given as a scalar, a list of two candidates (the mean squared errors are uninterpreted '
+                       'positive numbers, either order) or an array of NASA-9 breaks; the default search over data '
+                       'points (T_mid=None) is not followed']
     run.undecided = ['fit quality (tracks the source / reproduces a same-family polynomial): least-squares and '
                      'Nelder-Mead behaviour on data',
                      'break temperatures strictly inside the range for user-supplied T_mid (no validation exists)']
@@ -569,6 +612,7 @@ def check(run, repo):
                                 for k, v in tables.items()}})
     n = fit_rules(run, repo, tables)
     run.floor('fitted coefficient vectors', n, 20)
+    candidate_search(run, repo, tables)
     n = nasa7_pipeline(run, repo, tables)
     run.floor('NASA-7 pipeline instances', n, 21)
     n = nasa9_pipeline(run, repo, tables, 4 if run.tier == 'thorough' else 3)
@@ -581,6 +625,14 @@ def check(run, repo):
 N = 'pmutt/empirical/nasa.py'
 S_ = 'pmutt/empirical/shomate.py'
 MUTANTS = [
+    {'name': 'high coefficients taken from the last candidate instead of the best', 'expect': ('DATAFLOW.T_mid', 'from_data'),
+     'edits': [(N, '    a_high_rev = all_a_high[min_i]', '    a_high_rev = all_a_high[-1]')]},
+    {'name': 'constant Cp data short-circuited to zero', 'expect': ('REF.fit', 'from_data'),
+     'edits': [(N, '''    if all([np.isclose(x, 0.) for x in CpoR]) \\
+       or any([np.isnan(x) for x in CpoR]):
+        T_mid = T[int(len(T) / 2)]''', '''    if all([np.isclose(x, CpoR[0]) for x in CpoR]) \\
+       or any([np.isnan(x) for x in CpoR]):
+        T_mid = T[int(len(T) / 2)]''')]},
     {'name': 'from_data writes H constant into slot 6', 'expect': ('', 'Nasa.from_data'),
      'edits': [(N, 'a_low[5], a_high[5] = _fit_HoRT(T_ref=T_ref,', 'a_low[6], a_high[5] = _fit_HoRT(T_ref=T_ref,')]},
     {'name': '_fit_HoRT T_ref<=T_mid flipped', 'expect': ('ANCHOR.H', 'Nasa.from_data'),
